@@ -19,6 +19,7 @@ func init() {
 			c.run("C11-R4", "ORDER: the side that can still talk reports, after draining input", c11R4)
 			c.run("C11-R5", "PAIR: defer cancel(nil) before any stage starts", c11R5)
 			c.run("C11-R6", "PAIR: a channel is closed only by its sending side", c11R6)
+			c.run("C11-R7", "GUARD-DOM (shared with C02-7): a source that ends before its announced length is an error, not a silent wait or spin", c02ShortSource)
 		})
 }
 
